@@ -139,4 +139,4 @@ class BaseSchema(ABC):
         """
 
     def __setstate__(self, state):
-        self.__dict__ = state
+        self.__dict__.update(state)
